@@ -64,6 +64,12 @@ XenBuild(r) ==
     ELSE IF r.size = 0 \/ (r.file /\ r.foff % PG # 0) THEN Err("Mmap")
     ELSE Ok([size |-> r.size, xflags |-> 0])
 
+\* ---- giving a mapping its guest range (both builds) ---------------------------------------
+\* GuestRegionMmap::new(mapping, base): refused when base + size lies beyond the address space - and then the mapping,
+\* handed over by value, goes away with the refusal.  A range ending exactly at 2^64 (its last byte is the last address)
+\* is refused by the code; the property's wording ("beyond the address space") does not settle that case: no verdict.
+WrapDecision(size, base) == IF base + size > WORD THEN "err" ELSE IF base + size = WORD THEN "any" ELSE "ok"
+
 \* ---- the finite universe ------------------------------------------------------------
 CONSTANTS Sizes, FLens, FOffs
 VARIABLE req
